@@ -12,7 +12,7 @@ CONSTANTS
   MaxOutputs = 2
   MinHidden = 0
   MaxHidden = 3
-  Acts = {1, 2, 3, 4, 5, 6, 7, 8, 9, 10, 11, 12, 13, 14, 15, 16, 17, 18, 19, 20}
+  Acts = {1, 2, 3, 4, 5, 6, 7, 8, 9, 10, 11, 12, 13, 14, 15, 16, 17, 18, 19, 20, 24}
   NodeTraitFree = TRUE
   MaxGenes = 7
   PairSet = {}
@@ -21,7 +21,7 @@ CONSTANTS
   Flags = {0, 1, 2, 3}
   GeneTraitFree = TRUE
   MaxMods = 2
-  ModActs = {21, 22, 23}
+  ModActs = {21, 22, 23, 25}
   ModEnabled = {TRUE, FALSE}
   OrgFits = {1, 5, 8, 9}
   OrgGens = {0, 3}
